@@ -5,6 +5,7 @@ CONSTANTS
   MaxBlocks = 3
   Layouts = {"plain"}
   MaxUnwind = 0
+  Features = {}
   Defect = "none"
   MaxReload = 0
 CONSTRAINT Bounded
